@@ -51,6 +51,17 @@ def _to_microseconds(delta: timedelta) -> int:
     return (delta.days * (24 * 3600) + delta.seconds) * 1000000 + delta.microseconds
 
 
+def _native_microseconds(delta: timedelta) -> int:
+    """
+    Exact length of a native timedelta in microseconds
+    (for a Duration: years and months included).
+    """
+    return (
+        timedelta.days.__get__(delta) * SECONDS_PER_DAY
+        + timedelta.seconds.__get__(delta)
+    ) * US_PER_SECOND + timedelta.microseconds.__get__(delta)
+
+
 class Duration(timedelta):
     """
     Replacement for the standard timedelta class.
@@ -344,7 +355,9 @@ class Duration(timedelta):
 
     def __add__(self, other: timedelta) -> Self:
         if isinstance(other, timedelta):
-            return self.__class__(seconds=self.total_seconds() + other.total_seconds())
+            return self.__class__(
+                microseconds=_native_microseconds(self) + _native_microseconds(other)
+            )
 
         return NotImplemented
 
@@ -352,7 +365,9 @@ class Duration(timedelta):
 
     def __sub__(self, other: timedelta) -> Self:
         if isinstance(other, timedelta):
-            return self.__class__(seconds=self.total_seconds() - other.total_seconds())
+            return self.__class__(
+                microseconds=_native_microseconds(self) - _native_microseconds(other)
+            )
 
         return NotImplemented
 
@@ -374,7 +389,7 @@ class Duration(timedelta):
             return self.__class__(
                 years=self._years * other,
                 months=self._months * other,
-                seconds=self._total * other,
+                microseconds=self._to_microseconds() * other,
             )
 
         if isinstance(other, float):
